@@ -218,8 +218,8 @@ class Check:
             "wall_s": round(time.time() - self.t0, 3),
             "violations": n_new,
         }
-        if self.quiet:
-            return
+        if self.quiet or os.environ.get("VERIF_NO_EVIDENCE"):
+            return  # scratch-root runs of the seeded corpus must not overwrite the evidence of /repo
         os.makedirs(os.path.join(VERIF, "evidence"), exist_ok=True)
         with open(os.path.join(VERIF, "evidence", "%s.json" % self.pid), "w") as f:
             json.dump(ev, f, indent=1, default=str)
